@@ -15,7 +15,8 @@ Inductive c03case :=
 | Graph (mode : N)              (* 0: the copier alone (VerifDeepCopy); 1: Config(ctx, &defaults) + View() *)
         (H : heap) (n_in : N) (root : hv)
         (impl : option hv)      (* None: the child process died (stack overflow) or hung; Some r: root of the output in H *)
-        (tg : tgraph) (troot : N).  (* struct/pointer-to-struct edges of the config type (mode 1) *)
+        (tg : tgraph) (troot : N)   (* struct/pointer-to-struct edges of the config type (mode 1) *)
+| Explore.   (* exploration outside the model (interior pointers): implementation-only direct oracles on the Go side *)
 
 Definition input_heap (H : heap) (n_in : N) : heap := filter (fun ao => fst ao <? n_in) H.
 
@@ -34,6 +35,7 @@ Definition is_done {A} (r : res A) : bool := match r with Done _ => true | _ => 
    the case; 3 property fails; 11 property fails in known-finding class 1 *)
 Definition check (c : c03case) : N :=
   match c with
+  | Explore => 0
   | Graph mode H n_in root impl tg troot =>
       let hin := input_heap H n_in in
       let fuel := walk_fuel H root in
